@@ -439,6 +439,9 @@ def _slice_bounds(s, n):
 
 
 def arr_getitem(ex, a, idx):
+    if isinstance(idx, SliceV) and idx.lo is None and idx.hi is None and idx.step is not None and tm.is_const(tm.lift(idx.step)) and tm.cval(tm.lift(idx.step)) == -1 and a.ndim == 1 and a.mask is None:
+        from . import libmodels_ext as lx
+        return lx.np_flip(ex, a)
     if isinstance(idx, PermV):
         if a.ndim != 1 or a.mask is not None or (a.shape[0] is not idx.key.shape[0]):
             raise OutOfSubset("permutation index of this operand")
@@ -654,6 +657,28 @@ def lib_getattr(ex, o, name):
             return LibFn("ndarray.min", lambda ex: np_reduce(ex, o, "min"))
         if name == "dtype":
             return DTypeV(o.dtype)
+        if name in ("astype", "mean", "any", "all", "clip", "reshape", "ravel", "flatten", "dot"):
+            from . import libmodels_ext as lx
+            if name == "astype":
+                return LibFn("ndarray.astype", lambda ex, dt, **kw: lx.arr_astype(ex, o, dt, **kw))
+            if name == "mean":
+                return LibFn("ndarray.mean", lambda ex, axis=None: lx.np_mean(ex, o, axis))
+            if name == "any":
+                return LibFn("ndarray.any", lambda ex: np_any(ex, o))
+            if name == "all":
+                return LibFn("ndarray.all", lambda ex: lx.np_all(ex, o))
+            if name == "clip":
+                return LibFn("ndarray.clip", lambda ex, lo=None, hi=None, **kw: np_clip(ex, o, lo, hi, **kw))
+            if name == "dot":
+                return LibFn("ndarray.dot", lambda ex, other: lx.np_dot(ex, o, other))
+            if name == "reshape":
+                def reshape(ex, *shape):
+                    shp = shape[0] if len(shape) == 1 else shape
+                    if o.ndim == 1 and (isinstance(shp, (int, T)) and tm.is_const(tm.lift(shp)) and tm.cval(tm.lift(shp)) == -1 or (isinstance(shp, (tuple, list)) and len(shp) == 1 and tm.is_const(tm.lift(shp[0])) and tm.cval(tm.lift(shp[0])) == -1)):
+                        return o
+                    raise OutOfSubset("reshape other than 1-D -> (-1,)")
+                return LibFn("ndarray.reshape", reshape)
+            return LibFn("ndarray." + name, lambda ex, *a_, **k_: lx.np_ravel(ex, o))
         if name == "size":
             return np_size(ex, o)
         if name == "ndim":
@@ -694,6 +719,17 @@ def lib_getattr(ex, o, name):
         if o.kind == "DataFrame" and name in o.cols:
             used(ex, "pandas: attribute access to a column")
             return o.cols[name]
+        # an attribute the real container has but this model does not: outside the subset (never "raises AttributeError")
+        if o.kind == "dict" and hasattr(dict, name):
+            raise OutOfSubset("dict." + name)
+        if o.kind == "DataFrame":
+            try:
+                import pandas as _pd
+                known = hasattr(_pd.DataFrame, name)
+            except Exception:  # noqa: BLE001
+                known = True
+            if known:
+                raise OutOfSubset("DataFrame." + name)
         raise Raised("AttributeError", name)
     if isinstance(o, dict):
         if name == "update":
@@ -710,6 +746,10 @@ def lib_getattr(ex, o, name):
             return LibFn("dict.copy", lambda ex: dict(o))
         if name == "pop":
             return LibFn("dict.pop", lambda ex, k, *d: o.pop(k, *d))
+        if name == "setdefault":
+            return LibFn("dict.setdefault", lambda ex, k, d=None: o.setdefault(k, d))
+        if hasattr(dict, name):
+            raise OutOfSubset("dict." + name)
         raise Raised("AttributeError", name)
     if isinstance(o, sx.DictProxy):
         if name == "pop":
@@ -1015,6 +1055,12 @@ def b_hasattr(ex, o, name):
     raise OutOfSubset(f"hasattr on {type(o).__name__}")
 
 
+def b_vars(ex, o):
+    if isinstance(o, ObjV):
+        return sx.DictProxy(o)
+    raise OutOfSubset(f"vars() of {type(o).__name__}")
+
+
 def b_getattr(ex, o, name, *default):
     if not isinstance(name, str):
         raise OutOfSubset("getattr with a computed name")
@@ -1058,6 +1104,7 @@ BUILTINS = {
     "isinstance": LibFn("isinstance", b_isinstance),
     "hasattr": LibFn("hasattr", b_hasattr),
     "getattr": LibFn("getattr", b_getattr),
+    "vars": LibFn("vars", b_vars),
     "dict_type": None,
     "str": LibFn("str", lambda ex, v="": "<str>"),
     "repr": LibFn("repr", lambda ex, v="": "<str>"),
@@ -1133,24 +1180,41 @@ def np_array(ex, v, dtype=None):
     return a
 
 
+def dtype_code(dtype, default="f8"):
+    """dtype argument of an allocation -> dtype tag; anything not recognised is outside the subset (never silently f8)"""
+    if dtype is None:
+        return default
+    if isinstance(dtype, DTypeV):
+        return dtype.code
+    if isinstance(dtype, LibFn) and dtype.name in ("float", "int", "bool"):
+        return {"float": "f8", "int": "i8", "bool": "b"}[dtype.name]
+    if isinstance(dtype, str) and dtype in ("float64", "float32", "int64", "int32", "f8", "f4", "i8", "i4", "float", "int", "d", "f"):
+        return {"float64": "f8", "float32": "f4", "int64": "i8", "int32": "i4", "float": "f8", "int": "i8", "d": "f8", "f": "f4"}.get(dtype, dtype)
+    raise OutOfSubset(f"dtype argument {dtype!r}")
+
+
 def np_zeros_like_model(fill):
     def f(ex, n, dtype=None):
+        dt = dtype_code(dtype)
+        if dt == "b":
+            raise OutOfSubset("boolean allocation")
         if isinstance(n, (tuple, list)):
             shape = tuple(tm.lift(num(x)) for x in n)
         else:
             shape = (tm.lift(num(n)),)
+        isint = dt in INT_RANGE
         if fill is None:
             u = ex.fresh_var("uninit")
-            fn = lambda idx: tm.app("uninit", (u,) + tuple(idx))
+            fn = lambda idx: tm.app("uninit", (u,) + tuple(idx), tm.I if isint else tm.R)
         else:
-            fn = lambda idx: tm.rconst(fill)
-        return ArrV(shape, fn, "f8")
+            fn = lambda idx: (tm.const(int(fill)) if isint else tm.rconst(fill))
+        return ArrV(shape, fn, dt)
     return f
 
 
 def _like_dtype(proto, dtype):
     if dtype is not None:
-        return dtype.code if isinstance(dtype, DTypeV) else dtype
+        return dtype_code(dtype)
     return proto.dtype if isinstance(proto, ArrV) else "f8"
 
 
@@ -1192,7 +1256,12 @@ def np_full(ex, n, fill, dtype=None):
         Arith(ex).need(tm.eq(v.shape[0], n), "np.full broadcasts the fill array to the requested length")
         return arr_copy(ex, v)
     v = tm.lift(v)
-    return ArrV((n,), lambda idx: v, "i8" if v.sort == tm.I else "f8")
+    dt = dtype_code(dtype, "i8" if v.sort == tm.I else "f8")
+    if dt in INT_RANGE and v.sort != tm.I:
+        v = tm.trunc(v)
+    elif dt not in INT_RANGE and v.sort == tm.I:
+        v = tm.toreal(v)
+    return ArrV((n,), lambda idx: v, dt)
 
 
 def np_result_type(ex, *args):
@@ -1275,8 +1344,16 @@ def np_maximum(ex, a, b):
     return ew(ex, lambda ar, x, y: tm.maximum(x, y), num(as_array(ex, a)), num(as_array(ex, b)))
 
 
-def np_clip(ex, a, lo, hi):
+def np_clip(ex, a, lo=None, hi=None, a_min=None, a_max=None):
     used(ex, "np.clip(a, lo, hi) = minimum(maximum(a, lo), hi)")
+    lo = a_min if lo is None else lo
+    hi = a_max if hi is None else hi
+    if lo is None and hi is None:
+        raise Raised("ValueError", "np.clip: one of the bounds must be given")
+    if hi is None:
+        return ew(ex, lambda ar, x, l: tm.maximum(x, l), num(as_array(ex, a)), num(lo))
+    if lo is None:
+        return ew(ex, lambda ar, x, h: tm.minimum(x, h), num(as_array(ex, a)), num(hi))
     return ew(ex, lambda ar, x, l, h: tm.minimum(tm.maximum(x, l), h), num(as_array(ex, a)), num(lo), num(hi))
 
 
@@ -1312,6 +1389,76 @@ def np_ndim(ex, v):
     if isinstance(v, TableV):
         return tm.const(2)
     raise OutOfSubset("ndim")
+
+
+def np_ma_masked(op):
+    """np.ma.masked_less_equal(a, c) etc.: entries satisfying the comparison are MASKED - not values any more (matplotlib
+    drops such vertices; arithmetic keeps them masked).  Modelled as an unconstrained number per entry, so that no
+    statement about the value of a masked entry can be proved and any equation that needs one is refutable."""
+    cmp = {"less_equal": tm.le, "less": tm.lt, "greater": tm.gt, "greater_equal": tm.ge, "equal": tm.eq}[op]
+
+    def f(ex, a, c, copy=True):
+        a = as_array(ex, a)
+        c = tm.lift(num(c))
+        used(ex, f"np.ma.masked_{op}: masked entries carry no value (unconstrained)")
+        if isinstance(a, T):
+            return tm.ite(cmp(tm.toreal(a), tm.toreal(c)), tm.app("masked_entry", [tm.toreal(a)]), tm.toreal(a))
+        return ew(ex, lambda ar, x: tm.ite(cmp(tm.toreal(x), tm.toreal(c)), tm.app("masked_entry", [tm.toreal(x)]), tm.toreal(x)), a, real_result=True)
+    return f
+
+
+def np_atleast_1d(ex, v):
+    v = as_array(ex, v)
+    if isinstance(v, ArrV):
+        return v
+    used(ex, "np.atleast_1d(scalar) = array([scalar])")
+    t = tm.lift(v)
+    return ArrV((tm.const(1),), lambda idx: t, "i8" if t.sort == tm.I else "f8")
+
+
+def np_squeeze(ex, v, axis=None):
+    """np.squeeze drops every axis of length one: a 1-D array of length 1 becomes 0-dimensional (indexing it raises),
+    any other 1-D array is returned as it is - the result's SHAPE depends on the length"""
+    v = as_array(ex, v)
+    if axis is not None:
+        raise OutOfSubset("np.squeeze(axis=...)")
+    if not isinstance(v, ArrV):
+        return v
+    if v.ndim != 1 or v.mask is not None:
+        raise OutOfSubset("np.squeeze of a multi-dimensional / mask-selected array")
+    used(ex, "np.squeeze: a length-1 axis is dropped (result 0-dimensional), other lengths unchanged")
+    if ex.decide(tm.eq(v.shape[0], tm.const(1))):
+        return ZeroDimV(v.get(tm.const(0)), v.dtype)
+    return v
+
+
+class ZeroDimV:
+    """0-dimensional ndarray: carries one value, has shape (), cannot be indexed or iterated"""
+
+    def __init__(self, value, dtype):
+        self.value, self.dtype = value, dtype
+
+    def getitem_model(self, ex, idx):
+        raise Raised("IndexError", "too many indices for array: array is 0-dimensional")
+
+    def getattr_model(self, ex, name):
+        if name == "shape":
+            return ()
+        if name == "ndim":
+            return tm.const(0)
+        raise OutOfSubset("0-d array attribute " + name)
+
+
+def np_diff(ex, v, n=1, axis=-1, **kw):
+    """np.diff(a)[k] = a[k+1] - a[k] for a 1-D array (dtype of the operand; bool arrays excluded)"""
+    v = as_array(ex, v)
+    if kw or not isinstance(v, ArrV) or v.ndim != 1 or v.mask is not None or v.dtype == "b" or not (isinstance(n, int) and n == 1 or (isinstance(n, T) and tm.is_const(n) and tm.cval(n) == 1)):
+        raise OutOfSubset("np.diff of this operand / with options")
+    used(ex, "np.diff(a)[k] = a[k+1] - a[k]")
+    f = v.cur()
+    one = tm.const(1)
+    Arith(ex).need(tm.ge(v.shape[0], one), "np.diff: at least one element")
+    return ArrV((tm.sub(v.shape[0], one),), lambda idx: tm.sub(f((tm.add(idx[0], one),)), f((idx[0],))), v.dtype)
 
 
 def np_cumsum(ex, v):
@@ -1601,7 +1748,11 @@ def np_vectorize(ex, f, otypes=None, **kw):
             raise OutOfSubset("vectorize over several arrays")
         k = [i for i, a in enumerate(args) if isinstance(a, ArrV)][0]
         arr = arrs[0]
-        used(ex2, "np.vectorize(f)(…, arr, …)[j] = f(…, arr[j], …), output type = otypes or the type of the first element's result")
+        used(ex2, "np.vectorize(f)(…, arr, …)[j] = f(…, arr[j], …), output type = otypes or the type of the first element's result; without otypes a size-0 input raises ValueError")
+        if ocode is None and arr.mask is None and arr.ndim == 1:
+            # numpy determines the output type by calling f on the first element: there is none in an empty array
+            if ex2.decide(tm.eq(arr.shape[0], tm.const(0))):
+                raise Raised("ValueError", "cannot call `vectorize` on size 0 inputs unless `otypes` is set")
         one = lambda v: (ex2.call_merged(f, args[:k] + [v] + args[k + 1:]) if isinstance(f, FuncV) else ex2.call(f, args[:k] + [v] + args[k + 1:]))
         res = map_over(ex2, arr, one).arr
         fn = res.cur()
@@ -1802,6 +1953,11 @@ _reg("warnings.catch_warnings", lambda ex, *a, **k: None)
 _reg("warnings.simplefilter", lambda ex, *a, **k: None)
 _reg("collections.namedtuple", namedtuple_model)
 _reg("numpy.interp", np_interp)
+for _op in ("less_equal", "less", "greater", "greater_equal", "equal"):
+    _reg("numpy.ma.masked_" + _op, np_ma_masked(_op))
+_reg("numpy.diff", np_diff)
+_reg("numpy.atleast_1d", np_atleast_1d)
+_reg("numpy.squeeze", np_squeeze)
 _reg("numpy.argsort", np_argsort)
 _reg("scipy.interpolate.interp1d", lambda ex, x, y, **kw: Interp1dV(ex, x, y, **kw))
 _reg("scipy.interpolate.interpolate.interp1d", lambda ex, x, y, **kw: Interp1dV(ex, x, y, **kw))
@@ -2057,3 +2213,8 @@ _reg("lmfit.Minimizer", lambda ex, fcn, params, **kw: MinimizerV(ex, fcn, params
 _reg("matplotlib.pyplot.subplots", plt_subplots)
 _reg("numpy.round", np_round)
 _reg("numpy.logspace", np_logspace)
+
+
+from . import libmodels_ext as _ext  # noqa: E402
+
+_ext.install()
